@@ -16,19 +16,6 @@ fn emit_choice_block(
     }
 
     match &section.mode {
-        ChoiceEmissionMode::ThreadedAnonGather => {
-            let threaded = build_threaded_choice_block_no_label(
-                section.choices,
-                section.continuation_nodes,
-                scope,
-                out.content.len(),
-                next_choice_index,
-                context,
-                fallback_continuation,
-            )?;
-            pack_threaded_choice_output(out, threaded)?;
-            return Ok(());
-        }
         ChoiceEmissionMode::ThreadedLoopLabel { loop_label } => {
             let threaded = build_wrapped_loop_choice_block(
                 section.choices,
@@ -159,16 +146,10 @@ fn emit_choice_block(
     Ok(())
 }
 
-enum ThreadedContinuationPlacement {
-    InsideGroup,
-    OutsideGroup,
-}
-
 struct ThreadedChoiceOutput {
     group: EmittedContainer,
     group_name: Option<String>,
     continuation: Option<(String, Value)>,
-    continuation_placement: ThreadedContinuationPlacement,
 }
 
 /// Fallback "path" of the loose ends inside the final gather of the top-level
@@ -215,32 +196,14 @@ fn loose_end_append_for_nodes<'a>(
 
 fn pack_threaded_choice_output(
     out: &mut EmittedContainer,
-    mut threaded: ThreadedChoiceOutput,
+    threaded: ThreadedChoiceOutput,
 ) -> Result<(), CompilerError> {
-    if let Some((name, value)) = threaded
-        .continuation
-        .as_ref()
-        .filter(|_| {
-            matches!(
-                threaded.continuation_placement,
-                ThreadedContinuationPlacement::InsideGroup
-            )
-        })
-        .cloned()
-    {
-        threaded.group.insert_named(name, value);
-    }
-
     let group_value = threaded
         .group
         .into_json_array(threaded.group_name.as_deref(), None)?;
 
-    if let Some((name, value)) = threaded.continuation.filter(|_| {
-        matches!(
-            threaded.continuation_placement,
-            ThreadedContinuationPlacement::OutsideGroup
-        )
-    }) {
+    // The continuation (the gather after the choices) is a sibling of the group.
+    if let Some((name, value)) = threaded.continuation {
         let mut outer = EmittedContainer::default();
         outer.push(group_value);
         outer.insert_named(name, value);
@@ -250,163 +213,4 @@ fn pack_threaded_choice_output(
     }
 
     Ok(())
-}
-
-fn build_threaded_choice_block_no_label(
-    choices: &[Node],
-    continuation: &[Node],
-    scope: &EmitScope,
-    group_index: usize,
-    next_choice_index: &mut usize,
-    context: &EmitContext,
-    fallback_continuation: Option<&str>,
-) -> Result<ThreadedChoiceOutput, CompilerError> {
-    let loop_choices = choices
-        .iter()
-        .filter_map(|node| match node {
-            Node::Choice(choice) => Some(choice),
-            _ => None,
-        })
-        .collect::<Vec<_>>();
-
-    let fallback_choice = loop_choices
-        .iter()
-        .find(|choice| {
-            choice.start_text.trim().is_empty() && choice.choice_only_text.trim().is_empty()
-        })
-        .copied();
-
-    let emit_choices = if fallback_choice.is_some() {
-        loop_choices
-            .iter()
-            .copied()
-            .filter(|choice| {
-                !(choice.start_text.trim().is_empty() && choice.choice_only_text.trim().is_empty())
-            })
-            .collect::<Vec<_>>()
-    } else {
-        loop_choices
-    };
-
-    let mut choice_labels = BTreeMap::new();
-    let group_path = joined_path(&scope.path, group_index + scope.param_offset);
-    for (offset, choice) in emit_choices.iter().enumerate() {
-        if let Some(label) = &choice.label {
-            let label_target =
-                joined_path(&group_path, format!("c-{}", *next_choice_index + offset));
-            choice_labels.insert(label.clone(), label_target);
-        }
-    }
-    let block_scope = scope
-        .at_path(group_path.clone())
-        .with_choice_labels(choice_labels);
-    let choices_prefix = group_path;
-
-    let mut choices_group = EmittedContainer::default();
-    let mut local_choice_index = *next_choice_index;
-
-    let g_name = format!("g-{}", *next_choice_index);
-    let continuation_path_abs = joined_path(&block_scope.path, &g_name);
-
-    let continuation_scope = block_scope.continuation(&g_name);
-    let continuation_body = match continuation.first() {
-        Some(Node::GatherPoint) => {
-            let mut idx = 1;
-            while idx < continuation.len() && matches!(continuation[idx], Node::Newline) {
-                idx += 1;
-            }
-            &continuation[idx..]
-        }
-        _ => continuation,
-    };
-    let continuation_has_nested_choices = continuation_body
-        .iter()
-        .any(|node| matches!(node, Node::Choice(_)));
-    let fallback_is_self = fallback_continuation == Some(continuation_path_abs.as_str());
-    let inner_fallback = if fallback_is_self {
-        Some(IMPLICIT_DONE_FALLBACK)
-    } else {
-        fallback_continuation
-    };
-    let mut continuation_container = emit_nodes_with_continuation(
-        continuation_body,
-        &continuation_scope,
-        context,
-        inner_fallback,
-    )?;
-    if let Some(token) = loose_end_append_for_nodes(
-        continuation_body,
-        continuation_has_nested_choices,
-        fallback_continuation,
-        Some(continuation_path_abs.as_str()),
-        true,
-        LooseEndNoFallback::None,
-    ) {
-        continuation_container.push(token);
-    }
-    let continuation_value = continuation_container.into_json_array(None, None)?;
-
-    for choice in emit_choices {
-        let header_idx = choices_group.content.len();
-        let header_scope =
-            block_scope.at_path(joined_path(&block_scope.path, header_idx));
-        choices_group.push(emit_wrapped_loop_choice_header(
-            choice,
-            &header_scope,
-            local_choice_index,
-            header_idx,
-            &choices_prefix,
-            context,
-        )?);
-
-        let branch_name = format!("c-{local_choice_index}");
-        let branch_scope = block_scope.choice_branch(&branch_name);
-        choices_group.insert_named(
-            branch_name,
-            emit_wrapped_loop_choice_body(
-                choice,
-                &branch_scope,
-                WrappedLoopChoiceBodyConfig {
-                    choice_index: local_choice_index,
-                    header_idx,
-                    choices_prefix: &choices_prefix,
-                    continuation_path: Some(&continuation_path_abs),
-                    continuation_terminal: None,
-                },
-                context,
-            )?,
-        );
-
-        local_choice_index += 1;
-        *next_choice_index += 1;
-    }
-
-    if let Some(fallback_choice) = fallback_choice {
-        let branch_name = format!("c-{local_choice_index}");
-        let branch_scope = block_scope.choice_branch(&branch_name);
-        choices_group.push(json!({"*": branch_scope.path, "flg": 8}));
-        choices_group.insert_named(
-            branch_name,
-            emit_wrapped_loop_choice_body(
-                fallback_choice,
-                &branch_scope,
-                WrappedLoopChoiceBodyConfig {
-                    choice_index: local_choice_index,
-                    header_idx: 0,
-                    choices_prefix: &choices_prefix,
-                    continuation_path: Some(&continuation_path_abs),
-                    continuation_terminal: None,
-                },
-                context,
-            )?,
-        );
-        *next_choice_index += 1;
-    }
-
-    Ok(ThreadedChoiceOutput {
-        group: choices_group,
-        group_name: None,
-        continuation: Some((g_name, continuation_value)),
-        continuation_placement: ThreadedContinuationPlacement::InsideGroup,
-    })
 }
